@@ -37,7 +37,9 @@ CHECKS = {
             "enumeration of all construction-order permutations of each unordered part, all iteration orders of every library-created set (shadowed `set`), real PYTHONHASHSEED values in separate interpreters, repeated dumps; independent format lint",
             "For 10 contents with >= 3 elements in every unordered part, every permutation of each part (pairs of parts in the thorough "
             "tier), 24/48 set-iteration policies while building and while loading, hash seeds 0..3/0..31 in separate interpreters and 3 "
-            "successive dumps must give the bytes of the canonical-order build; JSON must be in sorted-keys 4-space form, INI sections and "
+            "successive dumps must give the bytes of the canonical-order build; treeinfo children registered under their id or their "
+            "UID (all 2^n choices) likewise; the canonical file with any ONE key / option / section left out, if it loads, must dump "
+            "identically three times and be a fixed point; JSON must be in sorted-keys 4-space form, INI sections and "
             "options sorted, caller-ordered lists unchanged; content reached through a re-loaded object must dump like the same content "
             "built from scratch.",
             "The set seam relies on the library looking up the global name `set`; hash seeds influence output only through hash-ordered "
@@ -57,7 +59,10 @@ CHECKS = {
             "epsilon-NFA, position graph and product automaton explored for two distinct paths over one word; a step-counting matcher agrees "
             "with re on every string of length <= 5/6 over the class alphabet (match end and all groups); all pump families up to length "
             "48; a violation is reported only when the real engine confirms super-polynomial growth or a <= 48-character input needs > 2 s; "
-            "21 entry-point probes with pumped values in killable subprocesses.",
+            "28 entry-point probes with pumped values in killable subprocesses; 11 structural document families whose loader work is "
+            "counted in Python calls (doubling growth or > 2M calls for <= 1 KiB = violation); every token string of length <= 2/3 through "
+            "every loader (must end within 20 000 calls, C-function calls counted for the abort); documents served as HTTP responses "
+            "in 6 transfer modes; a taint run proving no document data reaches `re` as a pattern.",
             "Cost model is CPython's sre; anchors/look-arounds are epsilon in the analysis (over-approximation guarded by the real-engine "
             "confirmation); polynomial degree is reported, not judged.",
             "DESIGN.md section 5, C19"),
@@ -72,8 +77,10 @@ CHECKS = {
             "DESIGN.md section 5, C20"),
     "C03": ("model_checking",
             "history BFS over valid add calls (rpms / modules / extra files) with a lockstep layout model; write->read->write at every reachable state against the model",
-            "Every sequence of valid adds up to depth 4 (quick) / 6 (thorough) from the C12 menus is replayed on a fresh real object "
-            "in lockstep with the layout model; at every reachable state the manifest is written, re-read and the re-read mapping "
+            "Every valid add from every distinct state reachable in fewer than 4 (quick) / 6 (thorough; rpms 5) calls of the C12 menus "
+            "(so overwrites and repeated entries are executed, not collapsed) is replayed on a fresh real object in lockstep with the "
+            "layout model; one manifest per documented architecture and builder; at every state the manifest is written, re-read "
+            "into a new reader AND into a reader that has loaded another manifest before, and the re-read mapping "
             "compared with the model's mapping (so a loss shared by writer and reader is seen), compose section intact, second write "
             "byte-identical, header current.",
             "Trusts mc/models/layouts.py (written from the format docs) and the regex-free NEVRA splitter bound to the code by C13.",
@@ -116,15 +123,18 @@ CHECKS = {
             "fault enumeration: every validator invocation during dump(path) fails once (injected), for both pre-states, on 12 base objects of all 7 formats; plus real invalid nested values",
             "One instrumented dump lists all validator invocations (top-level and inside nested writers); for every index i a fresh "
             "object is dumped with the i-th invocation raising, with the destination absent and holding the previous good copy; "
-            "afterwards the path must have exactly its pre-state and no other file may appear.  Exhaustive over injection points.",
+            "afterwards the path must have exactly its pre-state and no other file may appear.  Exhaustive over injection points.  "
+            "Plus every real invalid value of the validator table, values the file format cannot encode, text the locale cannot "
+            "encode, hard-linked destinations and objects a loader refused.",
             "Validators are found by name (_validate* on MetadataBase subclasses); the check reports itself vacuous if the seam is lost.",
             "DESIGN.md section 5, C18"),
     "C01": ("model_checking",
             "explicit-state BFS over composeinfo descriptions (deviation bound k edits from seeds), each state built on the real library and cycled write->read->write against the spec as reference model",
-            "All compose descriptions within k edits (quick 1, thorough 2) of three seeds - incl. depth-3 forests, layered-product "
+            "All compose descriptions within k edits (quick 1, thorough 2) of four seeds - incl. depth-3 forests, layered-product "
             "variants, dashed top-level UIDs, labels, base products, all release/compose/variant types, 14 path categories - are "
             "built through the public API, written, re-read and compared field by field with the spec (not with another library "
-            "output), then written again and compared byte for byte; every state is also reached from a re-loaded parent object.",
+            "output), then written again and compared byte for byte; every state is also reached from a re-loaded parent object; "
+            "child ids that begin with the parent's UID, 8-digit versions, respin 0 and upper-case release types are in the alphabet.",
             "Trusts the builder/observer in mc/build/ci.py and the normalisation rules quoted from the property; text alphabets "
             "are class representatives; bounded by k and by 7 variants / depth 3.",
             "DESIGN.md section 5, C01"),
@@ -133,21 +143,24 @@ CHECKS = {
             "All manifests within k edits of three seeds (every supported type and format, null/non-null volume id and md5, 1/3 "
             "checksum types, sizes > 2^32, unified + additional variants, aliased image objects, up to 3 images per cell, initial "
             "header default/1.1/1.2) are built, written, re-read and compared attribute by attribute (all 15) and cell by cell "
-            "with the spec; second write byte-identical; also from re-loaded parents.",
+            "with the spec; second write byte-identical; also from re-loaded parents, through a file handle that is written and read "
+            "back, with placements taken out again and with empty manifests.",
             "Trusts mc/build/im.py; identity collisions with different checksums are excluded here (C09).",
             "DESIGN.md section 5, C02"),
     "C09": ("model_checking",
             "history BFS: all add/dumps/reload sequences up to depth d over a colliding image pool, real Images object stepped in lockstep with a reference model",
-            "Every history of depth <= 3 (quick) / 4 (thorough) over 52 adds (4 cells x 13 pool images built to collide or to "
+            "Every history of depth <= 3 (quick) / 4 (thorough) over 56 adds (4 cells x 14 pool images built to collide or to "
             "differ in exactly one identity attribute), dumps and reload, from 5 initial header versions, is replayed on a fresh "
-            "real object and compared with the model after every step (acceptance, ValueError, unchanged manifest and cells); "
+            "real object and compared with the model after every step (acceptance, ValueError, unchanged manifest and cells); header "
+            "version changes and document loads are operations of the history, too; "
             "every source state is also written as a 1.0/1.1/1.2 document; identify_image(object) == identify_image(dict).",
             "Trusts the 20-line model in mc/checks/c09.py; scope reading of 'format 1.1 or later' per DESIGN.md section 4.",
             "DESIGN.md section 5, C09"),
     "C10": ("model_checking",
             "complete enumeration of small src-layout documents (images 1.0/1.1/1.2, rpms 0.3) and of add calls over arch classes, against a re-filing model",
             "All 3 x 702 images documents and all 14 520 rpms 0.3 documents with <= 2 variants over {x86_64, i386, src} are "
-            "loaded by the real library and compared with the re-filing model; no src/nosrc key may survive in mapping or dump; "
+            "loaded by the real library three ways (new object, an object that has loaded, added and been queried before, second consumer "
+            "of one parsed document) and compared with the re-filing model; no src/nosrc key may survive in mapping or dump; "
             "every add over 10 architecture classes on 3 pre-states must be accepted (binary) or refused with ValueError and no change.",
             "Trusts the re-filing model (30 lines) written from the property text; variants with only a src entry are outside the claim.",
             "DESIGN.md section 5, C10"),
@@ -161,9 +174,10 @@ CHECKS = {
             "bounded-exhaustive encode->validate->decode grid plus complete decoder suffix table (all lowercase suffixes of length <= 3) and legacy documents",
             "Compose IDs are created by the real ComposeInfo for every point of the grid (respins at both ends of every digit length "
             "below 10^8, versions with 8/9-digit runs, all types), validated by the library's own validator and decoded back; the "
-            "decoder is run on every documented suffix and on all 18 274 other suffixes of length <= 3; legacy 0.0/0.2 documents "
-            "must expose the triple encoded in the id.",
-            "RHEL-5 compose-id hack outside the alphabet; quick tier varies one release field at a time.",
+            "decoder is run on every documented suffix and on all 18 274 other suffixes of length <= 3; the id is created again after "
+            "the respin was bumped; legacy 0.0/0.2 documents (loaded into a used object) must expose the triple encoded in the id.",
+            "Quick tier varies one release field at a time; a suffix that decodes to a compose type the tree ADDS to COMPOSE_TYPES is "
+            "counted as an extension, not as an unknown suffix.",
             "DESIGN.md section 5, C15"),
     "C14": ("exploration",
             "bounded-exhaustive string enumeration against hand-written DFAs; exhaustive create->parse grid",
